@@ -1,1 +1,612 @@
-//! C29: not implemented yet.
+//! C29 — Pool key-exchange requests require a configured token.
+//!
+//! Engine E-IN over real TLS 1.3 sessions (same rig as C28: harness TLS client writing raw
+//! records over `tokio::io::duplex` to the real `KeyExchangeServer::handle_connection` /
+//! `handle_longterm`), tokio clock paused: "is the connection still open" is observed by a
+//! 1 s (virtual) read timeout on the client end, which only fires when both ends are idle.
+//!
+//! Enumerated: server token list in {[], [alpha], [alpha, bravo]} x first request in
+//! {KE, FixedKey(SIV256), FixedKey(SIV512), Support(p), Support(a), Support(p+a)} x token in
+//! {none, "wrong", "", "alph", "alphaX", "ALPHA", "alpha", "bravo"} x keep-alive record x
+//! keep-alive permit available; then, for every first request that leaves the connection
+//! open, every follow-up script of length <= 4 (thorough: <= 6) that is deliverable (breadth-first: a script is
+//! extended only while the connection is still open) over {KE, FixedKey, Support}
+//! x keep-alive x token in {none, wrong, alpha}.
+//!
+//! Reference (statement): FixedKey/Support on a new connection are served iff the token
+//! is in the configured list, else BadRequest error record, no cookies, connection closed;
+//! kept open iff served and keep-alive asked and permit available; KE on a kept connection
+//! is answered BadRequest and the connection is closed; follow-ups keep the connection
+//! open only if they ask for it.
+use std::sync::Arc;
+use std::sync::atomic::{AtomicU64, Ordering};
+use std::time::Duration;
+
+use tokio::io::{AsyncReadExt, AsyncWriteExt};
+
+use super::common::{self, Ctx};
+use crate::generic::NtpVersion;
+use crate::keyset::{KeySet, KeySetProvider};
+use crate::nts::KeyExchangeServer;
+use crate::nts::verif_probe::gj::{self as rig, Rec};
+
+const T1: &str = "alpha";
+const T2: &str = "bravo";
+const TOKENS: [Option<&str>; 8] = [None, Some("wrong"), Some(""), Some("alph"), Some("alphaX"), Some("ALPHA"), Some(T1), Some(T2)];
+const CFGS: [&[&str]; 3] = [&[], &[T1], &[T1, T2]];
+
+#[derive(Clone, Copy, Debug, PartialEq, Eq, Hash)]
+enum Kind {
+    Ke,
+    Fk(u16),
+    Sup(bool, bool),
+}
+
+fn fixed_keys(alg: u16) -> (Vec<u8>, Vec<u8>) {
+    let n = if alg == 15 { 32 } else { 64 };
+    ((0..n as u8).collect(), (100..100 + n as u8).collect())
+}
+
+fn request(kind: Kind, token: Option<&str>, ka: bool) -> Vec<u8> {
+    let mut recs = Vec::new();
+    if let Some(t) = token {
+        recs.push(Rec::new(14, t.as_bytes()));
+    }
+    match kind {
+        Kind::Ke => {
+            recs.push(Rec::new(0x8001, &[0, 0]));
+            recs.push(Rec::new(0x8004, &[0, 15]));
+        }
+        Kind::Fk(alg) => {
+            let (c2s, s2c) = fixed_keys(alg);
+            let mut body = c2s;
+            body.extend_from_slice(&s2c);
+            recs.push(Rec::new(0x800c, &body));
+            recs.push(Rec::new(0x8001, &[0, 0]));
+            recs.push(Rec::new(0x8004, &alg.to_be_bytes()));
+        }
+        Kind::Sup(p, a) => {
+            if p {
+                recs.push(Rec::new(0x8009, &[]));
+            }
+            if a {
+                recs.push(Rec::new(0x800a, &[]));
+            }
+        }
+    }
+    if ka {
+        recs.push(Rec::new(8, &[]));
+    }
+    recs.push(Rec::new(0x8000, &[]));
+    rig::enc(&recs)
+}
+
+/// What a request *is*, read back from its bytes with the harness' own decoder (so that a
+/// replayed hex trace gets the same expectations).
+struct ReqView {
+    kind: Kind,
+    token: Option<String>,
+    ka: bool,
+    keys: Option<(Vec<u8>, Vec<u8>)>,
+}
+
+fn view(req: &[u8]) -> Option<ReqView> {
+    let recs = rig::dec(req)?;
+    let token = recs.iter().find(|r| r.kind() == 14).map(|r| String::from_utf8_lossy(&r.body).to_string());
+    let ka = recs.iter().any(|r| r.kind() == 8);
+    let fk = recs.iter().find(|r| r.kind() == 12);
+    let wp = recs.iter().any(|r| r.kind() == 9);
+    let wa = recs.iter().any(|r| r.kind() == 10);
+    let alg = recs.iter().find(|r| r.kind() == 4).and_then(|r| r.u16s()).and_then(|v| v.first().copied());
+    let (kind, keys) = if let Some(fk) = fk {
+        let n = fk.body.len() / 2;
+        (Kind::Fk(alg?), Some((fk.body[..n].to_vec(), fk.body[n..].to_vec())))
+    } else if wp || wa {
+        (Kind::Sup(wp, wa), None)
+    } else {
+        (Kind::Ke, None)
+    };
+    Some(ReqView { kind, token, ka, keys })
+}
+
+#[derive(Clone, Copy, Debug, PartialEq, Eq)]
+enum After {
+    Open,
+    ClosedClean,
+    ClosedDirty,
+    ExtraData,
+    NotProbed,
+}
+
+struct Step {
+    response: Vec<Rec>,
+    complete: bool,
+    after: After,
+}
+
+struct Obs {
+    steps: Vec<Step>,
+    first: String,  // "Kept" | "Ok" | "Err(..)"
+    first_kept: bool,
+    first_err: bool,
+    permit_calls: u64,
+    longterm: Option<String>,
+}
+
+const HANG: Duration = Duration::from_secs(3600);
+
+fn keyset() -> Arc<KeySet> {
+    let mut p = KeySetProvider::new(2);
+    p.rotate();
+    p.rotate();
+    p.get()
+}
+
+fn rt() -> tokio::runtime::Runtime {
+    tokio::runtime::Builder::new_current_thread().enable_time().start_paused(true).build().expect("runtime")
+}
+
+fn session(
+    rt: &tokio::runtime::Runtime,
+    connector: &tokio_rustls::TlsConnector,
+    kex: &KeyExchangeServer,
+    ks: &Arc<KeySet>,
+    script: &[Vec<u8>],
+    permit: bool,
+) -> Result<Option<Obs>, String> {
+    common::catch(|| {
+        rt.block_on(async {
+            let (c, s) = tokio::io::duplex(4096);
+            let cf = async {
+                let mut steps = Vec::new();
+                let Ok(mut tls) = connector.connect(rig::localhost(), c).await else { return steps };
+                for req in script {
+                    if tls.write_all(req).await.is_err() || tls.flush().await.is_err() {
+                        break;
+                    }
+                    let (response, complete) = match tokio::time::timeout(Duration::from_secs(5), rig::read_message(&mut tls)).await {
+                        Ok(Ok(r)) => (r, true),
+                        Ok(Err((partial, _))) => (partial, false),
+                        Err(_) => (Vec::new(), false), // silent but open
+                    };
+                    let mut b = [0u8; 1];
+                    let after = match tokio::time::timeout(Duration::from_secs(1), tls.read(&mut b)).await {
+                        Err(_) => After::Open,
+                        Ok(Ok(0)) => After::ClosedClean,
+                        Ok(Ok(_)) => After::ExtraData,
+                        Ok(Err(_)) => After::ClosedDirty,
+                    };
+                    steps.push(Step { response, complete, after });
+                    if after != After::Open {
+                        break;
+                    }
+                }
+                let _ = tls.shutdown().await;
+                steps
+            };
+            let sf = async {
+                let calls = AtomicU64::new(0);
+                let r = kex
+                    .handle_connection(s, ks, || {
+                        calls.fetch_add(1, Ordering::Relaxed);
+                        if permit { Some(()) } else { None }
+                    })
+                    .await;
+                let permit_calls = calls.load(Ordering::Relaxed);
+                match r {
+                    Ok(Some(((), io))) => {
+                        let lr = kex.handle_longterm(io, || ks.clone()).await;
+                        ("Kept".to_string(), true, false, permit_calls, Some(match lr {
+                            Ok(()) => "Ok".to_string(),
+                            Err(e) => format!("Err({})", rig::err_name(&e)),
+                        }))
+                    }
+                    Ok(None) => ("Ok".to_string(), false, false, permit_calls, None),
+                    Err(e) => (format!("Err({})", rig::err_name(&e)), false, true, permit_calls, None),
+                }
+            };
+            match tokio::time::timeout(HANG, async { tokio::join!(cf, sf) }).await {
+                Ok((steps, (first, first_kept, first_err, permit_calls, longterm))) => {
+                    Some(Obs { steps, first, first_kept, first_err, permit_calls, longterm })
+                }
+                Err(_) => None,
+            }
+        })
+    })
+}
+
+fn summarize(r: &[Rec]) -> String {
+    let mut out = Vec::new();
+    for rec in r {
+        out.push(match rec.kind() {
+            0 => "eom".to_string(),
+            1 => format!("proto{:04x?}", rec.u16s().unwrap_or_default()),
+            2 => format!("error{:?}", rec.u16s().unwrap_or_default()),
+            4 => format!("aead{:?}", rec.u16s().unwrap_or_default()),
+            5 => "cookie".to_string(),
+            8 => "keepalive".to_string(),
+            9 => format!("protos{:04x?}", rec.u16s().unwrap_or_default()),
+            10 => format!("algs{:?}", rec.u16s().unwrap_or_default()),
+            k => format!("rec{k}"),
+        });
+    }
+    // collapse cookie runs
+    let n = out.iter().filter(|s| *s == "cookie").count();
+    let mut s: Vec<String> = out.into_iter().filter(|s| s != "cookie").collect();
+    if n > 0 {
+        s.insert(s.len().saturating_sub(1), format!("cookie x{n}"));
+    }
+    s.join(" ")
+}
+
+/// Run one scripted connection and compare with the reference. Returns the observation
+/// text (no random bytes in it) and whether the connection was open after the first request.
+fn run_case(
+    ctx: &Ctx,
+    rt: &tokio::runtime::Runtime,
+    connector: &tokio_rustls::TlsConnector,
+    kex: &KeyExchangeServer,
+    ks: &Arc<KeySet>,
+    cfg: &[&str],
+    versions_ids: &[u16],
+    permit: bool,
+    script: &[Vec<u8>],
+) -> (String, bool) {
+    // returns (observation, connection open after the complete script)
+    let trace = format!(
+        "cfg={};permit={};script={}",
+        cfg.join(","),
+        permit as u8,
+        script.iter().map(|r| common::hex(r)).collect::<Vec<_>>().join(",")
+    );
+    ctx.add("transitions", script.len() as u64);
+    ctx.inc("sessions");
+    let obs = match session(rt, connector, kex, ks, script, permit) {
+        Err(e) => {
+            ctx.violation("C29:panic", format!("server panicked: {e}"), trace);
+            return (format!("panic {e}"), false);
+        }
+        Ok(None) => {
+            ctx.violation("C29:hang", "connection idle for an hour of virtual time", trace);
+            return ("hang".into(), false);
+        }
+        Ok(Some(o)) => o,
+    };
+    let mut text = Vec::new();
+    // outcome-class counters for the first request are taken from the single-request sessions only
+    let cnt = |k: &str| {
+        if script.len() == 1 {
+            ctx.inc(k)
+        }
+    };
+    let mut open = false; // connection state before this step: false = new connection
+    let mut end_open = false;
+    let mut cut_short = false;
+    for (i, req) in script.iter().enumerate() {
+        let Some(v) = view(req) else { break };
+        let Some(step) = obs.steps.get(i) else {
+            text.push(format!("#{i} not delivered (connection closed)"));
+            break;
+        };
+        let r = &step.response;
+        let cookies: Vec<&Rec> = r.iter().filter(|x| x.kind() == 5).collect();
+        let errors: Vec<u16> = r.iter().filter(|x| x.kind() == 2).flat_map(|x| x.u16s().unwrap_or_default()).collect();
+        let has_ka = r.iter().any(|x| x.kind() == 8);
+        let sup_p = r.iter().find(|x| x.kind() == 9).and_then(|x| x.u16s());
+        let sup_a = r.iter().find(|x| x.kind() == 10).and_then(|x| x.u16s());
+        let gave_something = !cookies.is_empty() || sup_p.is_some() || sup_a.is_some();
+        let is_open = step.after == After::Open;
+        text.push(format!("#{i} {:?} token={:?} ka={} -> [{}]{} then {:?}", v.kind, v.token, v.ka, summarize(r), if step.complete { "" } else { " (incomplete)" }, step.after));
+        if step.after == After::ExtraData {
+            ctx.violation("C29:extra-data", "server sent bytes after its End-Of-Message", trace.clone());
+        }
+        if !errors.is_empty() && gave_something {
+            ctx.violation("C29:error-with-cookies", format!("request #{i}: response carries an error record and cookies/parameter lists"), trace.clone());
+        }
+        // cookies of a fixed-key answer must wrap exactly the supplied keys
+        if let (Kind::Fk(alg), Some((c2s, s2c))) = (v.kind, &v.keys) {
+            for c in &cookies {
+                let good = match ks.decode_cookie(&c.body) {
+                    Ok(d) => rig::aead_id(d.algorithm) == alg && d.c2s.key_bytes() == &c2s[..] && d.s2c.key_bytes() == &s2c[..],
+                    Err(_) => false,
+                };
+                if !good {
+                    ctx.violation("C29:cookie-keys-differ", format!("request #{i}: a cookie does not decode to the supplied fixed keys"), trace.clone());
+                    break;
+                }
+            }
+        }
+        if !open {
+            // ---------------- new connection
+            let token_ok = v.token.as_deref().is_some_and(|t| cfg.contains(&t));
+            match v.kind {
+                Kind::Ke => {
+                    cnt("first_ke");
+                    if is_open || obs.first_kept || has_ka {
+                        ctx.violation("C29:kept-without-request-or-permit", "plain key exchange left the connection open", trace.clone());
+                    }
+                    if cookies.len() != 8 || !errors.is_empty() {
+                        ctx.violation("C29:ke-not-served", format!("plain key exchange on a new connection: {} cookies, errors {errors:?}", cookies.len()), trace.clone());
+                    }
+                }
+                Kind::Fk(_) | Kind::Sup(..) => {
+                    let want_kept = token_ok && v.ka && permit;
+                    if token_ok {
+                        cnt("first_pool_served_expected");
+                        let served = match v.kind {
+                            Kind::Fk(alg) => {
+                                cookies.len() == 8
+                                    && r.iter().filter(|x| x.kind() == 1).filter_map(|x| x.u16s()).collect::<Vec<_>>() == vec![vec![0u16]]
+                                    && r.iter().filter(|x| x.kind() == 4).filter_map(|x| x.u16s()).collect::<Vec<_>>() == vec![vec![alg]]
+                            }
+                            Kind::Sup(p, a) => {
+                                let mut want_p = versions_ids.to_vec();
+                                want_p.sort();
+                                let mut got_p = sup_p.clone().unwrap_or_default();
+                                got_p.sort();
+                                sup_p.is_some() == p && sup_a.is_some() == a && (!p || got_p == want_p) && (!a || {
+                                    let g = sup_a.clone().unwrap_or_default();
+                                    let mut pairs: Vec<(u16, u16)> = g.chunks(2).filter(|c| c.len() == 2).map(|c| (c[0], c[1])).collect();
+                                    pairs.sort();
+                                    pairs == vec![(15, 32), (17, 64)]
+                                })
+                            }
+                            Kind::Ke => unreachable!(),
+                        };
+                        if !served || !errors.is_empty() || !step.complete {
+                            ctx.violation(
+                                "C29:valid-token-rejected",
+                                format!("token {:?} is configured ({cfg:?}) but the request was not served: [{}]", v.token, summarize(r)),
+                                trace.clone(),
+                            );
+                        } else {
+                            cnt("first_pool_served");
+                        }
+                        if is_open != obs.first_kept {
+                            ctx.violation("C29:handle-mismatch", format!("connection open={is_open} but long-lived handle returned={}", obs.first_kept), trace.clone());
+                        }
+                        if (is_open || obs.first_kept) && !want_kept {
+                            ctx.violation(
+                                "C29:kept-without-request-or-permit",
+                                format!("connection kept open although keep-alive asked={} permit available={permit}", v.ka),
+                                trace.clone(),
+                            );
+                        }
+                        if want_kept && !(is_open && obs.first_kept) {
+                            ctx.violation("C29:not-kept-despite-request-and-permit", "keep-alive asked, permit available, token valid, but the connection was closed", trace.clone());
+                        }
+                        if has_ka != is_open {
+                            ctx.violation("C29:keepalive-flag-mismatch", format!("response keep-alive record={has_ka} but connection open={is_open}"), trace.clone());
+                        }
+                        if !v.ka && obs.permit_calls != 0 {
+                            ctx.violation("C29:permit-taken-without-request", "a long-lived connection slot was requested although the client did not ask to keep the connection", trace.clone());
+                        }
+                        if is_open {
+                            cnt("first_kept_open");
+                        }
+                    } else {
+                        cnt("first_pool_rejected_expected");
+                        if gave_something {
+                            ctx.violation(
+                                "C29:served-without-token",
+                                format!("token {:?} is not in {cfg:?} but the server answered [{}]", v.token, summarize(r)),
+                                trace.clone(),
+                            );
+                        }
+                        if errors != vec![1] {
+                            ctx.violation(
+                                "C29:not-bad-request",
+                                format!("token {:?} not in {cfg:?}: expected a BadRequest(1) error record, got [{}]", v.token, summarize(r)),
+                                trace.clone(),
+                            );
+                        } else {
+                            cnt("first_pool_rejected_badrequest");
+                        }
+                        if is_open || obs.first_kept {
+                            ctx.violation("C29:rejected-connection-left-open", "connection stays open after a rejected pool request", trace.clone());
+                        }
+                        if !obs.first_err {
+                            ctx.violation("C29:rejected-but-server-ok", format!("handle_connection returned {} for a rejected request", obs.first), trace.clone());
+                        }
+                        if obs.permit_calls != 0 {
+                            ctx.violation("C29:permit-taken-for-rejected-request", "a long-lived connection slot was taken for an unauthenticated request", trace.clone());
+                        }
+                    }
+                }
+            }
+        } else {
+            // ---------------- kept-open connection
+            match v.kind {
+                Kind::Ke => {
+                    ctx.inc("followup_ke");
+                    if !cookies.is_empty() || errors != vec![1] {
+                        ctx.violation(
+                            "C29:ke-accepted-on-kept-connection",
+                            format!("plain key exchange on a kept-open connection answered [{}]", summarize(r)),
+                            trace.clone(),
+                        );
+                    } else {
+                        ctx.inc("followup_ke_badrequest");
+                    }
+                    if is_open {
+                        ctx.violation("C29:ke-accepted-on-kept-connection", "connection stays open after a plain key exchange request on it", trace.clone());
+                    }
+                }
+                Kind::Fk(_) | Kind::Sup(..) => {
+                    let served = errors.is_empty() && gave_something && step.complete;
+                    ctx.inc(if served { "followup_pool_served" } else { "followup_pool_refused" });
+                    if served && v.token.as_deref().is_some_and(|t| !cfg.contains(&t)) {
+                        ctx.inc("followup_served_with_unconfigured_token");
+                    }
+                    if is_open && !v.ka {
+                        ctx.violation("C29:followup-left-open-without-request", format!("request #{i} did not ask for keep-alive but the connection stays open"), trace.clone());
+                    }
+                    if served && v.ka && !is_open {
+                        ctx.violation("C29:followup-closed-despite-request", format!("request #{i} was served and asked for keep-alive but the connection was closed"), trace.clone());
+                    }
+                    if !served && is_open {
+                        ctx.violation("C29:rejected-connection-left-open", format!("request #{i} was refused but the connection stays open"), trace.clone());
+                    }
+                    if served && is_open && !has_ka {
+                        ctx.inc("followup_open_without_keepalive_record");
+                    }
+                }
+            }
+        }
+        open = is_open;
+        end_open = is_open && i + 1 == script.len();
+        if !open {
+            if i + 1 < script.len() {
+                ctx.inc("scripts_cut_short_by_close");
+                cut_short = true;
+            }
+            break;
+        }
+    }
+    if let Some(l) = &obs.longterm {
+        text.push(format!("longterm={l}"));
+    }
+    text.push(format!("first={} permit_calls={}", obs.first, obs.permit_calls));
+    // a script whose tail was never delivered (connection closed earlier) repeats a shorter script
+    if !cut_short {
+        ctx.distinct(common::hash_of(&trace));
+    }
+    (text.join(" | "), end_open)
+}
+
+fn replay(ctx: &Ctx, trace: &str) -> String {
+    let mut cfg: Vec<String> = Vec::new();
+    let mut permit = false;
+    let mut script = Vec::new();
+    for part in trace.split(';') {
+        if let Some(v) = part.strip_prefix("cfg=") {
+            cfg = v.split(',').filter(|s| !s.is_empty()).map(|s| s.to_string()).collect();
+        } else if let Some(v) = part.strip_prefix("permit=") {
+            permit = v == "1";
+        } else if let Some(v) = part.strip_prefix("script=") {
+            for h in v.split(',') {
+                match common::unhex(h) {
+                    Some(b) => script.push(b),
+                    None => return "bad hex".into(),
+                }
+            }
+        }
+    }
+    let cfg_refs: Vec<&str> = cfg.iter().map(|s| s.as_str()).collect();
+    let kex = rig::server(vec![NtpVersion::V4, NtpVersion::V5], cfg.clone());
+    let ks = keyset();
+    run_case(ctx, &rt(), &rig::raw_connector(), &kex, &ks, &cfg_refs, &[0, 0x8001], permit, &script).0
+}
+
+#[test]
+fn check() {
+    let ctx = Ctx::new("C29");
+    if let Some(t) = common::replay_trace() {
+        let a = replay(&ctx, &t);
+        let b = replay(&ctx, &t);
+        common::report_replay("C29", &a, &b, ctx.violation_count() > 0);
+        return;
+    }
+    let depth = if ctx.quick() { 4 } else { 6 };
+    ctx.rule(
+        "every case is one real TLS connection to handle_connection (+ handle_longterm when a handle is returned). First \
+         requests: 3 token configurations x 6 request kinds x 8 token values (absent, wrong, empty, prefix, extension, case \
+         variant, each configured token) x keep-alive x permit availability. For every first request after which the connection \
+         is open: all follow-up scripts of length 1..=4 (thorough 1..=6) every proper prefix of which leaves the connection open, over 13 requests {KE, FixedKey x keep-alive x token \
+         (none, wrong, alpha), Support x keep-alive x token}. Distinct & non-trivial = distinct (configuration, permit, \
+         request script) all of whose requests were delivered (scripts cut short by an earlier close are run but not counted).",
+    );
+    ctx.assume("connection state is observed at the client end: a 1 s virtual-time read timeout with both ends idle means 'open'");
+    ctx.assume("'served' for Support means the asked lists are present with the configured protocols and {(15,32),(17,64)}; for FixedKey 8 cookies that decode to the supplied keys");
+    ctx.assume("follow-up FixedKey/Support requests on an already authenticated connection are not re-checked against the token list (statement is silent); only their keep-open behaviour and cookie contents are checked");
+
+    let versions = vec![NtpVersion::V4, NtpVersion::V5];
+    let versions_ids = [0u16, 0x8001];
+    let servers: Vec<KeyExchangeServer> = CFGS.iter().map(|c| rig::server(versions.clone(), c.iter().map(|s| s.to_string()).collect())).collect();
+    let ks = keyset();
+    let connector = rig::raw_connector();
+    let kinds = [Kind::Ke, Kind::Fk(15), Kind::Fk(17), Kind::Sup(true, false), Kind::Sup(false, true), Kind::Sup(true, true)];
+
+    // ---- first requests
+    struct First {
+        cfg: usize,
+        permit: bool,
+        req: Vec<u8>,
+    }
+    let mut firsts = Vec::new();
+    for cfg in 0..CFGS.len() {
+        for kind in kinds {
+            for tok in TOKENS {
+                for ka in [false, true] {
+                    for permit in [false, true] {
+                        firsts.push(First { cfg, permit, req: request(kind, tok, ka) });
+                    }
+                }
+            }
+        }
+    }
+    let kept: std::sync::Mutex<Vec<usize>> = std::sync::Mutex::new(Vec::new());
+    common::par_for_with(firsts.len() as u64, 4, rt, |rt, i| {
+        let f = &firsts[i as usize];
+        let (obs, open) = run_case(&ctx, rt, &connector, &servers[f.cfg], &ks, CFGS[f.cfg], &versions_ids, f.permit, std::slice::from_ref(&f.req));
+        ctx.inc("evaluations");
+        if open {
+            kept.lock().unwrap().push(i as usize);
+        }
+        if i % 97 == 13 || (open && i % 7 == 0) {
+            ctx.sample(format!("cfg={:?} permit={}: {obs}", CFGS[f.cfg], f.permit));
+        }
+    });
+    let mut kept = kept.into_inner().unwrap();
+    kept.sort();
+    ctx.set("first_requests", firsts.len() as u64);
+    ctx.set("first_requests_leaving_connection_open", kept.len() as u64);
+
+    // ---- follow-ups
+    let mut alphabet: Vec<Vec<u8>> = vec![request(Kind::Ke, None, false)];
+    for kind in [Kind::Fk(15), Kind::Sup(true, true)] {
+        for ka in [false, true] {
+            for tok in [None, Some("wrong"), Some(T1)] {
+                alphabet.push(request(kind, tok, ka));
+            }
+        }
+    }
+    let k = alphabet.len();
+    // breadth-first over scripts that leave the connection open: a script is extended only
+    // if the connection is still open after it (anything sent after a close is never read)
+    let mut frontier: Vec<(usize, Vec<usize>)> = kept.iter().map(|f| (*f, Vec::new())).collect();
+    for d in 1..=depth {
+        if ctx.over_budget() {
+            ctx.cap_hit(&format!("follow-up depth {d} not started; depth<={} complete", d - 1));
+            break;
+        }
+        let n = (frontier.len() * k) as u64;
+        let next: std::sync::Mutex<Vec<(usize, Vec<usize>)>> = std::sync::Mutex::new(Vec::new());
+        common::par_for_with(n, 8, rt, |rt, i| {
+            let (fi, w) = &frontier[i as usize / k];
+            let f = &firsts[*fi];
+            let mut w = w.clone();
+            w.push(i as usize % k);
+            let mut script = vec![f.req.clone()];
+            for s in &w {
+                script.push(alphabet[*s].clone());
+            }
+            let (obs, open) = run_case(&ctx, rt, &connector, &servers[f.cfg], &ks, CFGS[f.cfg], &versions_ids, f.permit, &script);
+            ctx.inc("evaluations");
+            if open {
+                next.lock().unwrap().push((*fi, w));
+            }
+            if i % 1013 == 501 {
+                ctx.sample(format!("cfg={:?}: {obs}", CFGS[f.cfg]));
+            }
+        });
+        let mut next = next.into_inner().unwrap();
+        next.sort();
+        ctx.add("followup_scripts_leaving_connection_open", next.len() as u64);
+        frontier = next;
+        ctx.set("followup_depth_completed", d as u64);
+    }
+    ctx.set("states", ctx.get("sessions"));
+    ctx.exhaustive(true);
+    ctx.finish();
+}
